@@ -2,6 +2,7 @@ package checks
 
 import (
 	"fmt"
+	"github.com/hyperjumptech/grule-rule-engine/ast"
 	"sort"
 	"strings"
 
@@ -151,6 +152,73 @@ func c11CallerMutations(rep *ev.Reporter, tier string) (ncalls, nontrivial int64
 			}
 		}
 		rec(nil)
+	}
+	return
+}
+
+// c11SameDocumentTwice: the same JSON TEXT given to several data contexts in a row. A rule action run on the first
+// context writes into its fact; the second context (fresh, another instance) holds the document as it was given.
+// Every pair of 4 documents (same / different text) x {Execute, Fetch} on the first context.
+func c11SameDocumentTwice(rep *ev.Reporter) (ncalls int64) {
+	rules := []*grl.Rule{
+		grl.R("w", grl.Sal(5), "J.n == 1", "J.n = 5", `J.o.k = "changed"`, "J.a[0] = 9", `Retract("w")`),
+		grl.R("is1", nil, "J.n == 1", "F.K = 1", `Retract("is1")`),
+		grl.R("orig", grl.Sal(-1), `J.o.k == "v" && J.a[0] == 1`, "F.K = 2", `Retract("orig")`),
+	}
+	prog := hx.NewProgram(rules, grl.Style{})
+	b, err := hx.Build(prog)
+	if err != nil {
+		rep.Violation("harness:build-failed:c11samedoc", err.Error(), nil)
+		return
+	}
+	docs := []string{`{"n":1,"o":{"k":"v"},"a":[1,2]}`, `{"n":1,"o":{"k":"v"},"a":[1,2]} `, `{"n":2,"o":{"k":"v"},"a":[1,2]}`, `{"a":[1,2],"n":1,"o":{"k":"v"}}`}
+	want := func(doc string) string {
+		if strings.Contains(doc, `"n":2`) {
+			return "orig"
+		}
+		return "is1,orig,w"
+	}
+	for i, d1 := range docs {
+		for j, d2 := range docs {
+			for _, first := range []string{"execute", "fetch"} {
+				id := fmt.Sprintf("c11/same-document-twice/%d.%d/%s", i, j, first)
+				if rep.ReplayFilter != "" && rep.ReplayFilter != id {
+					continue
+				}
+				kb1, e1 := b.Instance()
+				kb2, e2 := b.Instance()
+				if e1 != nil || e2 != nil {
+					continue
+				}
+				eng := &engine.GruleEngine{MaxCycle: 10}
+				dc1 := ast.NewDataContext()
+				dc1.Add("F", facts.New())
+				if err := dc1.AddJSON("J", []byte(d1)); err != nil {
+					continue
+				}
+				if first == "execute" {
+					_ = eng.Execute(dc1, kb1)
+				} else {
+					_, _ = eng.FetchMatchingRules(dc1, kb1)
+				}
+				dc2 := ast.NewDataContext()
+				dc2.Add("F", facts.New())
+				if err := dc2.AddJSON("J", []byte(d2)); err != nil {
+					continue
+				}
+				got, err := eng.FetchMatchingRules(dc2, kb2)
+				ncalls++
+				var gn []string
+				for _, r := range got {
+					gn = append(gn, r.RuleName)
+				}
+				sort.Strings(gn)
+				if err != nil || strings.Join(gn, ",") != want(d2) {
+					rep.Violation("C11:wrong-rule-set:document-given-to-an-earlier-data-context:"+first, fmt.Sprintf("a data context got the JSON text %s after another data context had been given %s and served an %s: FetchMatchingRules on the NEW context (new instance) returned %v, %v; the rules true of the document as given are [%s]\n  case: %s\n  grl: %s", d2, d1, first, gn, err, want(d2), id, strings.ReplaceAll(prog.Text, "\n", "\n       ")),
+						map[string]interface{}{"case": id, "grl": prog.Text})
+				}
+			}
+		}
 	}
 	return
 }
